@@ -78,6 +78,37 @@ Section Shortcut.
       let me := if (maxEmpty =? 0)%nat then length p else maxEmpty in
       if mv (hd d p) (last p d) then ([hd d p; last p d], true)
       else rv_loop ms 0 me p tape false d.
+
+  (* ---- PathSimplifier::collapseCloseVertices: repeatedly take the closest pair of non-adjacent vertices (first minimum in
+     the scan order i, then j >= i + 2) whose distance entry has not been set to infinity, connect them if the validator
+     accepts, otherwise set that entry to infinity ---- *)
+  Variable dist : St -> St -> Z.
+  Variable steq : St -> St -> bool.          (* identity of two path states (the distance table is keyed by the states) *)
+  Definition cc_pairs (n : nat) : list (nat * nat) := flat_map (fun i => map (fun j => (i, j)) (seq (i + 2) (n - (i + 2)))) (seq 0 n).
+  Definition cc_entry (blocked : list (St * St)) (a b : St) : option Z :=
+    if existsb (fun q => steq (fst q) a && steq (snd q) b) blocked then None else Some (dist a b).
+  Definition cc_best (p : list St) (blocked : list (St * St)) (d : St) : option ((nat * nat) * Z) :=
+    fold_left (fun best ij =>
+                 match cc_entry blocked (nth (fst ij) p d) (nth (snd ij) p d) with
+                 | None => best
+                 | Some v => match best with Some (_, bv) => if v <? bv then Some (ij, v) else best | None => Some (ij, v) end
+                 end) (cc_pairs (length p)) None.
+  Fixpoint cc_loop (steps_left nochange maxEmpty : nat) (p : list St) (blocked : list (St * St)) (changed : bool) (d : St) : list St * bool :=
+    match steps_left with
+    | O => (p, changed)
+    | S k =>
+      if (nochange <? maxEmpty)%nat then
+        match cc_best p blocked d with
+        | None => (p, changed)
+        | Some ((a, b), _) =>
+          if mv (nth a p d) (nth b p d) then cc_loop k 1 maxEmpty (firstn (S a) p ++ skipn b p) blocked true d
+          else cc_loop k (S nochange) maxEmpty p ((nth a p d, nth b p d) :: blocked) changed d
+        end
+      else (p, changed)
+    end.
+  Definition collapse_close (p : list St) (maxSteps maxEmpty : nat) (d : St) : list St * bool :=
+    if (length p <? 3)%nat then (p, false)
+    else cc_loop (if (maxSteps =? 0)%nat then length p else maxSteps) 0 (if (maxEmpty =? 0)%nat then length p else maxEmpty) p [] false d.
 End Shortcut.
 
 (* the instance run against the implementation: vertices are numbered, the motion validator is a table of accepted pairs,
@@ -85,3 +116,7 @@ End Shortcut.
 Definition rv_run (n maxSteps maxEmpty : nat) (rnum rden : Z) (ok : list (nat * nat)) (tape : list (Z * Z)) : list nat * bool :=
   reduce_vertices nat (fun a b => existsb (fun q => Nat.eqb (fst q) a && Nat.eqb (snd q) b) ok)
                   (fun count => 1 + (rden + 2 * count * rnum) / (2 * rden)) (seq 0 n) maxSteps maxEmpty tape 0%nat.
+(* collapseCloseVertices on vertices 0..n-1 placed at the integer coordinates xs: distance = |x_a - x_b| *)
+Definition cc_run (xs : list Z) (maxSteps maxEmpty : nat) (ok : list (nat * nat)) : list nat * bool :=
+  collapse_close nat (fun a b => existsb (fun q => Nat.eqb (fst q) a && Nat.eqb (snd q) b) ok)
+                 (fun a b => Z.abs (nth a xs 0 - nth b xs 0)) Nat.eqb (seq 0 (length xs)) maxSteps maxEmpty 0%nat.
